@@ -5,7 +5,7 @@ import gen as G
 import codec
 
 MODEL_TARGETS = ["model/SingleObject.vo", "model/CanonicalForm.vo"]
-COQ_TARGETS = ["props/C18.vo"]
+COQ_TARGETS = ["props/C18.vo", "proofs/ConstsTie.vo"]
 THEOREMS = [("C18", ["C18_enc", "C18_dec", "C18_mismatch", "C18_short", "C18_roundtrip", "C18_slice_reader"])]
 PROOF_FILES = ["proofs/SingleObjectProofs.v", "proofs/SingleObjectChunkProofs.v", "proofs/ReaderProofs.v", "props/C18.v"]
 TRUSTED_BASE = [
